@@ -69,11 +69,10 @@ inductive Rec where
   | vote (h r : Nat) (pre : Bool) (nil : Bool) -- own prevote (`pre`) / precommit, for nil or for the block
 deriving DecidableEq, Repr, Inhabited
 
-structure Disk where
+/-- what `node.NewNode` (genesis, handshake) reads and writes: the three databases -/
+structure Core where
   /-- block store as `Height()` sees it after a restart: block `i+1` at index `i` -/
   blocks : List Block
-  /-- `SaveBlock` writes for height `blocks.length+1` that precede the height record -/
-  pend : Nat
   /-- state DB: genesis doc record present -/
   gen : Bool
   /-- state DB: state record present -/
@@ -88,14 +87,23 @@ structure Disk where
   /-- application: committed height and hash -/
   app : Nat
   appHash : Nat
+deriving Repr, Inhabited
+
+/-- the whole durable world: the databases, the consensus WAL, the privval sign state -/
+structure Disk extends Core where
+  /-- `SaveBlock` writes for height `blocks.length+1` that precede the height record -/
+  pend : Nat
   wal : List Rec
   pv : HRS
 deriving Repr, Inhabited
 
-def Disk.empty : Disk :=
-  { blocks := [], pend := 0, gen := false, stRec := false, ver := false, st := 0, stHash := 0,
-    resp := [], app := 0, appHash := 0, wal := [], pv := ⟨0, 0, 0⟩ }
+def Core.empty : Core :=
+  { blocks := [], gen := false, stRec := false, ver := false, st := 0, stHash := 0,
+    resp := [], app := 0, appHash := 0 }
 
+def Disk.empty : Disk := { toCore := Core.empty, pend := 0, wal := [], pv := ⟨0, 0, 0⟩ }
+
+def Core.store (c : Core) : Nat := c.blocks.length
 def Disk.store (d : Disk) : Nat := d.blocks.length
 
 /-- every durable step, named as the harness observes it -/
@@ -116,25 +124,34 @@ inductive Ev where
   | apS (h hash : Nat)              -- application: its state record
 deriving DecidableEq, Repr, Inhabited
 
-def apply (d : Disk) : Ev → Disk
-  | .pvP h r => { d with pv := d.pv.max ⟨h, r, 1⟩ }
-  | .pvV h r _ => { d with pv := d.pv.max ⟨h, r, 2⟩ }
-  | .pvC h r _ => { d with pv := d.pv.max ⟨h, r, 3⟩ }
-  | .wP h r => { d with wal := d.wal ++ [.prop h r] }
-  | .wB h r => { d with wal := d.wal ++ [.part h r] }
-  | .wV h r n => { d with wal := d.wal ++ [.vote h r true n] }
-  | .wC h r n => { d with wal := d.wal ++ [.vote h r false n] }
-  | .wE n => { d with wal := d.wal ++ [.mark n] }
-  | .bsH | .bsP | .bsC | .bsS => { d with pend := d.pend + 1 }
-  | .bsJ b => { d with blocks := d.blocks ++ [b], pend := 0 }
-  | .bsF => d
-  | .stG => { d with gen := true }
-  | .stR h => { d with resp := h :: d.resp }
-  | .stT | .stP | .stV => d
-  | .stS h hash v => { d with stRec := true, st := h, stHash := hash, ver := v }
-  | .apC | .apK => d
-  | .apS h hash => { d with app := h, appHash := hash }
+def applyCore (c : Core) : Ev → Core
+  | .bsJ b => { c with blocks := c.blocks ++ [b] }
+  | .stG => { c with gen := true }
+  | .stR h => { c with resp := h :: c.resp }
+  | .stS h hash v => { c with stRec := true, st := h, stHash := hash, ver := v }
+  | .apS h hash => { c with app := h, appHash := hash }
+  | _ => c
 
+def apply (d : Disk) (e : Ev) : Disk :=
+  { toCore := applyCore d.toCore e
+    pend := match e with
+      | .bsH | .bsP | .bsC | .bsS => d.pend + 1
+      | .bsJ _ => 0
+      | _ => d.pend
+    wal := match e with
+      | .wP h r => d.wal ++ [.prop h r]
+      | .wB h r => d.wal ++ [.part h r]
+      | .wV h r n => d.wal ++ [.vote h r true n]
+      | .wC h r n => d.wal ++ [.vote h r false n]
+      | .wE n => d.wal ++ [.mark n]
+      | _ => d.wal
+    pv := match e with
+      | .pvP h r => d.pv.max ⟨h, r, 1⟩
+      | .pvV h r _ => d.pv.max ⟨h, r, 2⟩
+      | .pvC h r _ => d.pv.max ⟨h, r, 3⟩
+      | _ => d.pv }
+
+def applyAllCore (c : Core) (evs : List Ev) : Core := evs.foldl applyCore c
 def applyAll (d : Disk) (evs : List Ev) : Disk := evs.foldl apply d
 
 /-! ## One height of a running single-validator node -/
@@ -183,7 +200,7 @@ def HsErr.isPanic : HsErr → Bool
   | .stateAhead | .storeAhead | .appHash | .uncovered | .noSeenCommit => true
   | _ => false
 
-def blockAt (d : Disk) (i : Nat) : Option Block := if i = 0 then none else d.blocks[i - 1]?
+def blockAt (d : Core) (i : Nat) : Option Block := if i = 0 then none else d.blocks[i - 1]?
 
 /-- `sm.SaveState` of a state whose LastBlockHeight is `s` (InitialHeight = 1) -/
 def saveStateEvs (s hash : Nat) (ver : Bool) : List Ev :=
@@ -191,7 +208,7 @@ def saveStateEvs (s hash : Nat) (ver : Bool) : List Ev :=
 
 /-- the loop of `replayBlocks`: ExecCommitBlock for the blocks `i … last` on the real
 application; `first` = the local `appHash` variable is still empty. -/
-def replayLoop (d : Disk) : (fuel i last cur : Nat) → (first : Bool) → Except HsErr (List Ev × Nat)
+def replayLoop (d : Core) : (fuel i last cur : Nat) → (first : Bool) → Except HsErr (List Ev × Nat)
   | 0, _, _, cur, _ => .ok ([], cur)
   | fuel + 1, i, last, cur, first =>
     if last < i then .ok ([], cur) else
@@ -208,7 +225,7 @@ def replayLoop (d : Disk) : (fuel i last cur : Nat) → (first : Bool) → Excep
 
 /-- `Handshaker.replayBlock` (ApplyBlock) of the block at the store height, on the real
 application (`mock = false`) or on the mock application answering from the saved responses -/
-def replayLast (d : Disk) (stHash cur : Nat) (mock : Bool) : Except HsErr (List Ev × Nat) :=
+def replayLast (d : Core) (stHash cur : Nat) (mock : Bool) : Except HsErr (List Ev × Nat) :=
   let h := d.store
   match blockAt d h with
   | none => .error .noBlock
@@ -221,7 +238,7 @@ def replayLast (d : Disk) (stHash cur : Nat) (mock : Bool) : Except HsErr (List 
 
 /-- `Handshaker.ReplayBlocks` after Info returned (app height, app hash) = (`d.app`, `d.appHash`);
 `ver` = the state record already carries the app version. Returns the durable steps it performs. -/
-def replayBlocksEvs (d : Disk) : Except HsErr (List Ev) :=
+def replayBlocksEvs (d : Core) : Except HsErr (List Ev) :=
   let storeH := d.store
   let stateH := d.st
   let appH := d.app
@@ -261,37 +278,35 @@ def replayBlocksEvs (d : Disk) : Except HsErr (List Ev) :=
 
 /-- durable steps of `node.NewNode` before the handshake's block replay: genesis doc, genesis
 state, the app version -/
-def preludeEvs (d : Disk) : List Ev :=
+def preludeEvs (d : Core) : List Ev :=
   (if d.gen then [] else [.stG]) ++
   (if d.stRec then [] else saveStateEvs 0 0 false) ++
   (if d.stRec && d.ver then [] else saveStateEvs d.st d.stHash true)
 
 /-- all durable steps of `node.NewNode` from the world `d` (the handshake), or its error -/
-def handshakeEvs (d : Disk) : Except HsErr (List Ev) :=
+def handshakeEvs (d : Core) : Except HsErr (List Ev) :=
   let pre := preludeEvs d
-  match replayBlocksEvs (applyAll d pre) with
+  match replayBlocksEvs (applyAllCore d pre) with
   | .error e => .error e
   | .ok evs => .ok (pre ++ evs)
 
-def handshake (d : Disk) : Except HsErr Disk :=
-  match handshakeEvs d with
-  | .error e => .error e
-  | .ok evs => .ok (applyAll d evs)
-
 /-- `node.NewNode` as a whole: the handshake, then `NewConsensusState` → `reconstructLastCommit`,
 which needs the seen commit of the state height (saved with the block) -/
-def newNode (d : Disk) : Except HsErr (List Ev × Disk) :=
+def newNode (d : Core) : Except HsErr (List Ev × Core) :=
   match handshakeEvs d with
   | .error e => .error e
   | .ok evs =>
-    let d' := applyAll d evs
+    let d' := applyAllCore d evs
     if 1 ≤ d'.st ∧ d'.store < d'.st then .error .noSeenCommit else .ok (evs, d')
 
 /-- the three heights agree, the two hashes agree -/
-def Disk.synced (d : Disk) : Prop :=
+def Core.synced (d : Core) : Prop :=
   d.store = d.st ∧ d.app = d.st ∧ d.appHash = d.stHash
 
-instance (d : Disk) : Decidable d.synced := by unfold Disk.synced; exact inferInstance
+instance (d : Core) : Decidable d.synced := by unfold Core.synced; exact inferInstance
+
+/-- application hash after executing the blocks in order from the empty application -/
+def chainHash (bs : List Block) : Nat := bs.foldl (fun h b => execTxs h b.txs) 0
 
 /-! ## Restart: ConsensusState.OnStart (WAL) and liveness of a single validator -/
 
@@ -362,9 +377,10 @@ deriving Repr, Inhabited
 /-- the labelled durable steps of a process started on `d` that lives to the end of the script;
 `rounds` only applies to the first process of a chain -/
 def bootEvs (script : List Tx) (rounds : List (Nat × Nat)) (d : Disk) : Except HsErr (List LEv × Disk) :=
-  match newNode d with
+  match newNode d.toCore with
   | .error e => .error e
-  | .ok (hsEvs, d1) =>
+  | .ok (hsEvs, _) =>
+    let d1 := applyAll d hsEvs
     let hsL := (labelFrom d hsEvs).map (fun p => LEv.mk true p.1 p.2)
     let openL := (walOpenEvs d1).map (fun e => LEv.mk false (d1.st + 1) e)
     let d2 := applyAll d1 (walOpenEvs d1)
